@@ -109,6 +109,11 @@ func (env *Env) lookupIdent(name string) (Val, bool) {
 	if g, ok := env.st.ghost[name]; ok {
 		return g, true
 	}
+	if env.fr != nil && !env.callee && env.fr.freeVars != nil {
+		if p, ok := env.fr.freeVars[name]; ok {
+			return e.loadThrough(env.st, p), true
+		}
+	}
 	if env.callee || env.inEnsures {
 		if v, ok := env.params[name]; ok {
 			return v, true
@@ -147,6 +152,11 @@ func (env *Env) objVal(obj types.Object) (Val, bool) {
 	switch o := obj.(type) {
 	case *types.Const:
 		return e.constOf(o), true
+	case *types.Func:
+		if fn := e.P.prog.FuncValue(o); fn != nil {
+			return Val{K: kFunc, Fn: fn, Typ: o.Type()}, true
+		}
+		return Val{}, false
 	case *types.Var:
 		// package-level variable
 		pkg := e.P.prog.Package(o.Pkg())
